@@ -2,6 +2,7 @@
     [logout_table] is the complete decision table of logoutHandleFunc, proved by symbolic execution of the chain go2v
     extracts from logout.go for all requests, metadata and instants; the statements below are read off it. *)
 From Saml Require Import Base.Bytes Idp.FactTypes Gen.Facts Idp.Sso Idp.Logout Idp.Deliver Proofs.LogoutProofs.
+From Saml Require Import Idp.BuilderTypes Idp.Builder Xml.Unmarshal Idp.AuthnOf Idp.RequestsOf.
 From Saml Require Import Codec.Base64 Core.WireCodec Core.DecodeVia.
 From Saml Require Import Idp.BuilderTypes Idp.Builder Idp.BuiltDoc.
 From Saml Require Import Xml.SchemaTypes Xml.Schema Gen.Schema Xml.SamlSpec.
@@ -122,6 +123,12 @@ Proof.
   exists f, raw, d, q. auto.
 Qed.
 
+(** decoding: the model's decode oracle is, below the codec, a function of the request document -- Unmarshal over the generated
+    schema followed by the projection onto the fields the handler reads ([lreq_of_doc], Idp/RequestsOf.v); the harness checks it against
+    the handler's own decoder on every case; content after the root element is refused *)
+Theorem C13_trailing_content_refused : forall doc, lreq_of_doc true doc = None.
+Proof. exact lreq_trailing_refused. Qed.
+
 Print Assumptions C13_success_iff.
 Print Assumptions C13_echo.
 Print Assumptions C13_target.
@@ -130,3 +137,4 @@ Print Assumptions C13_delivery_from_source.
 Print Assumptions C13_schema.
 Print Assumptions C13_built_response.
 Print Assumptions C13_codec.
+Print Assumptions C13_trailing_content_refused.
